@@ -22,15 +22,23 @@ use std::panic::{catch_unwind, AssertUnwindSafe};
 use tachys::{
     html::{
         attribute::global::GlobalAttributes,
-        element::{br, div, hr, img, input, main, p, script, section, span, style, textarea, ul, ElementChild},
+        attribute::{
+            any_attribute::{AnyAttribute, IntoAnyAttribute},
+            custom::custom_attribute,
+        },
+        element::{
+            a, br, button, custom, div, em, h1, hr, img, input, label, li, main, noscript, ol, p, script, section, span, style,
+            textarea, ul, ElementChild,
+        },
         InertElement,
     },
     hydration::Cursor,
     renderer::dom::{self as ndom, Dom, Element, Kind, Node},
     view::{
+        add_attr::AddAnyAttr,
         any_view::{AnyView, IntoAny},
         keyed::keyed,
-        Mountable, PositionState, Render, RenderHtml,
+        Mountable, Position, PositionState, Render, RenderHtml,
     },
     reactive_graph::Suspend,
 };
@@ -60,8 +68,11 @@ pub enum V {
     Keyed(Vec<V>),
     Inert(D),
     Num(u32),
-    /// `Suspend` over a future; `pending`: not yet resolved when the server renders (streamed forms)
-    Suspend(i64, bool, Box<V>),
+    /// `Suspend` over a future; mode 1: not yet resolved when the server renders (streamed forms), ready on
+    /// the client; mode 2 ("local"): on the server the future notifies the `LocalResourceNotifier` and
+    /// never completes (the markup carries the marker of `None`), on the client it is pending at
+    /// hydration time and completed later (case shape 4)
+    Suspend(i64, i64, Box<V>),
     /// textarea / style / script with string children (`Some`) and children that render to nothing
     /// (`None(k)`: `()`, `Option::None`, empty `Vec`)
     Raw(usize, Vec<(usize, String)>, Vec<Result<String, i64>>),
@@ -73,6 +84,19 @@ pub enum V {
     Arr2(Box<V>, Box<V>),                // [T; 2]
     Str(i64, String),                    // Arc<str> / Cow<'static, str>
     Owned(Box<V>),                       // OwnedView
+    /// audit extensions (oracle-only): a primitive of another type given by its source text
+    Prim(i64, String),
+    /// `[T; N]` with N = 0, 1, 3
+    ArrN(Vec<V>),
+    /// `EitherOf4` / `EitherOf8` / `EitherOf16`: (n, index, view)
+    OfN(i64, i64, Box<V>),
+    /// `view.add_any_attr(..)` on the TYPED view: (kind, value) with kind 0 `data-sp=`, 1 `class:sp`,
+    /// 2 `style:height=`, 3 `accesskey=`
+    Spread(Vec<(i64, String)>, Box<V>),
+    /// an element (div / span / p) with attributes of every representation: (kind, repr, value)
+    Rich(usize, Vec<(i64, i64, Option<String>)>, Vec<V>),
+    /// dynamic parts (case shape 4): see c05x.rs
+    Dyn(crate::c05::x::DynSpec),
 }
 
 #[derive(Debug, Clone)]
@@ -120,7 +144,7 @@ pub fn dec_view(s: &Sexp) -> V {
         11 => V::Keyed(many(s.at(1))),
         12 => V::Inert(dec_dom(s.at(1))),
         13 => V::Num(s.at(1).num() as u32),
-        14 => V::Suspend(s.at(1).num(), s.at(2).num() != 0, Box::new(dec_view(s.at(3)))),
+        14 => V::Suspend(s.at(1).num(), s.at(2).num(), Box::new(dec_view(s.at(3)))),
         15 => V::Raw(
             s.at(1).num() as usize,
             dec_attrs(s.at(2)),
@@ -134,6 +158,20 @@ pub fn dec_view(s: &Sexp) -> V {
         21 => V::Arr2(Box::new(dec_view(s.at(1))), Box::new(dec_view(s.at(2)))),
         22 => V::Str(s.at(1).num(), text(s.at(2))),
         23 => V::Owned(Box::new(dec_view(s.at(1)))),
+        24 => V::Prim(s.at(1).num(), text(s.at(2))),
+        25 => V::Spread(s.at(1).list().iter().map(|a| (a.at(0).num(), text(a.at(1)))).collect(), Box::new(dec_view(s.at(2)))),
+        26 => V::Rich(
+            s.at(1).num() as usize,
+            s.at(2)
+                .list()
+                .iter()
+                .map(|a| (a.at(0).num(), a.at(1).num(), if a.at(2).at(0).num() != 0 { Some(text(a.at(2).at(1))) } else { None }))
+                .collect(),
+            many(s.at(3)),
+        ),
+        27 => V::Dyn(x::dec_dyn(s)),
+        28 => V::ArrN(many(s.at(1))),
+        29 => V::OfN(s.at(1).num(), s.at(2).num(), Box::new(dec_view(s.at(3)))),
         _ => V::Unit,
     }
 }
@@ -145,7 +183,25 @@ fn attr3(a: &[(usize, String)]) -> (Option<String>, Option<String>, Option<Strin
 }
 
 /// a tuple of any arity out of type-erased parts (tuples are transparent for rendering)
+/// a FLAT tuple of 5, 6, 8 or 12 parts (other instantiations of `impl_view_for_tuples!`)
+macro_rules! flat_tuple {
+    ($vs:expr, $($n:ident),*) => {{
+        let mut it = $vs.into_iter();
+        $(let $n = it.next().unwrap();)*
+        ($($n,)*).into_any()
+    }};
+}
+
 fn tuple_any(mut vs: Vec<AnyView>) -> AnyView {
+    if FLAT.with(|f| f.get()) {
+        match vs.len() {
+            5 => return flat_tuple!(vs, a, b, c, d, e),
+            6 => return flat_tuple!(vs, a, b, c, d, e, f),
+            8 => return flat_tuple!(vs, a, b, c, d, e, f, g, h),
+            12 => return flat_tuple!(vs, a, b, c, d, e, f, g, h, i, j, k, l),
+            _ => {}
+        }
+    }
     match vs.len() {
         0 => ().into_any(),
         1 => (vs.remove(0),).into_any(),
@@ -168,10 +224,28 @@ fn tuple_any(mut vs: Vec<AnyView>) -> AnyView {
 }
 
 macro_rules! element {
-    ($ctor:ident, $attrs:expr, $kids:expr) => {{
+    ($ctor:ident, $attrs:expr, $kids:expr) => {
+        element!(@e $ctor(), $attrs, $kids)
+    };
+    (@e $e:expr, $attrs:expr, $kids:expr) => {{
         let (id, title, dx) = attr3($attrs);
-        let e = $ctor().id(id).title(title).lang(dx);
+        let e = $e.id(id).title(title).lang(dx);
         let mut kids: Vec<AnyView> = $kids;
+        if FLAT.with(|f| f.get()) && (kids.len() == 5 || kids.len() == 6) {
+            // five / six direct `.child()` calls: the children tuple grows through `NextTuple`
+            let six = if kids.len() == 6 { kids.pop() } else { None };
+            let mut it = kids.into_iter();
+            let e = e
+                .child(it.next().unwrap())
+                .child(it.next().unwrap())
+                .child(it.next().unwrap())
+                .child(it.next().unwrap())
+                .child(it.next().unwrap());
+            match six {
+                Some(k) => e.child(k).into_any(),
+                None => e.into_any(),
+            }
+        } else {
         match kids.len() {
             0 => e.into_any(),
             1 => e.child(kids.remove(0)).into_any(),
@@ -189,6 +263,23 @@ macro_rules! element {
                 let c = kids.remove(2);
                 let b = kids.remove(1);
                 e.child(kids.remove(0)).child(b).child(c).child(tuple_any(rest)).into_any()
+            }
+        }
+        }
+    }};
+}
+/// the same element with `add_any_attr(extra)` on the typed `HtmlElement` (attribute spreading)
+macro_rules! element_spread {
+    ($e:expr, $attrs:expr, $kids:expr, $extra:expr) => {{
+        let (id, title, dx) = attr3($attrs);
+        let e = $e.id(id).title(title).lang(dx);
+        let mut kids: Vec<AnyView> = $kids;
+        match kids.len() {
+            0 => e.add_any_attr($extra).into_any(),
+            1 => e.child(kids.remove(0)).add_any_attr($extra).into_any(),
+            _ => {
+                let rest = kids.split_off(1);
+                e.child(kids.remove(0)).child(tuple_any(rest)).add_any_attr($extra).into_any()
             }
         }
     }};
@@ -234,7 +325,19 @@ pub fn mk(v: &V) -> AnyView {
             2 => element!(p, a, ks.iter().map(mk).collect()),
             3 => element!(section, a, ks.iter().map(mk).collect()),
             4 => element!(ul, a, ks.iter().map(mk).collect()),
-            _ => element!(main, a, ks.iter().map(mk).collect()),
+            5 => element!(main, a, ks.iter().map(mk).collect()),
+            // audit extensions: a custom element (dynamic tag, `TAG = ""`), SVG elements (namespace),
+            // further HTML elements whose tree construction is the generic rule
+            6 => element!(@e custom("x-y"), a, ks.iter().map(mk).collect()),
+            7 => element!(@e tachys::svg::svg(), a, ks.iter().map(mk).collect()),
+            8 => element!(@e tachys::svg::g(), a, ks.iter().map(mk).collect()),
+            9 => element!(li, a, ks.iter().map(mk).collect()),
+            10 => element!(ol, a, ks.iter().map(mk).collect()),
+            11 => element!(@e self::a(), a, ks.iter().map(mk).collect()),
+            12 => element!(em, a, ks.iter().map(mk).collect()),
+            13 => element!(h1, a, ks.iter().map(mk).collect()),
+            14 => element!(button, a, ks.iter().map(mk).collect()),
+            _ => element!(label, a, ks.iter().map(mk).collect()),
         },
         V::Void(t, a) => match t {
             0 => void_element!(br, a),
@@ -259,9 +362,26 @@ pub fn mk(v: &V) -> AnyView {
             InertElement::new(html).into_any()
         }
         V::Num(n) => (*n).into_any(),
-        V::Suspend(id, pending, inner) => {
+        V::Suspend(id, mode, inner) => {
             let inner = (**inner).clone();
-            let rx = if *pending && STREAMING.with(|s| s.get()) {
+            let streaming = STREAMING.with(|s| s.get());
+            if *mode == 2 && streaming {
+                // the server side of a local resource: tell the boundary and never complete
+                return Suspend::new(async move {
+                    futures::future::poll_fn(|_cx| {
+                        if let Some(mut n) =
+                            reactive_graph::owner::use_context::<reactive_graph::computed::suspense::LocalResourceNotifier>()
+                        {
+                            n.notify();
+                        }
+                        std::task::Poll::<()>::Pending
+                    })
+                    .await;
+                    mk(&inner)
+                })
+                .into_any();
+            }
+            let rx = if (*mode == 1 && streaming) || (*mode == 2 && CLIENT_PENDING.with(|s| s.get())) {
                 let (tx, rx) = futures::channel::oneshot::channel::<()>();
                 SENDERS.with(|s| s.borrow_mut().push((*id, tx)));
                 Some(rx)
@@ -302,8 +422,34 @@ pub fn mk(v: &V) -> AnyView {
         V::Arr2(a, b) => [mk(a), mk(b)].into_any(),
         V::Str(k, t) => match k {
             0 => std::sync::Arc::<str>::from(t.as_str()).into_any(),
-            _ => std::borrow::Cow::<'static, str>::Owned(t.clone()).into_any(),
+            1 => std::borrow::Cow::<'static, str>::Owned(t.clone()).into_any(),
+            2 => leak(t).into_any(),
+            _ => std::borrow::Cow::<'static, str>::Borrowed(leak(t)).into_any(),
         },
+        V::Prim(k, t) => mk_prim(*k, t),
+        V::ArrN(vs) => {
+            let mut it = vs.iter().map(mk);
+            match vs.len() {
+                0 => {
+                    let a: [AnyView; 0] = [];
+                    a.into_any()
+                }
+                1 => [it.next().unwrap()].into_any(),
+                _ => [it.next().unwrap(), it.next().unwrap(), it.next().unwrap()].into_any(),
+            }
+        }
+        V::OfN(n, i, x) => mk_of_n(*n, *i, mk(x)),
+        V::Spread(attrs, x) => spread(x, attrs),
+        V::Rich(t, attrs, ks) => {
+            let extra: Vec<AnyAttribute> = attrs.iter().map(|(k, r, v)| rich_attr(*k, *r, v)).collect();
+            let kids: Vec<AnyView> = ks.iter().map(mk).collect();
+            match t {
+                0 => element_spread!(div(), &[], kids, extra),
+                1 => element_spread!(span(), &[], kids, extra),
+                _ => element_spread!(p(), &[], kids, extra),
+            }
+        }
+        V::Dyn(spec) => x::mk_dyn(spec),
         V::Owned(x) => tachys::reactive_graph::OwnedView::new(mk(x)).into_any(),
         V::Raw(t, a, parts) => {
             let kids: Vec<AnyView> = parts
@@ -318,16 +464,267 @@ pub fn mk(v: &V) -> AnyView {
             match t {
                 0 => element!(textarea, a, kids),
                 1 => element!(style, a, kids),
-                _ => element!(script, a, kids),
+                2 => element!(script, a, kids),
+                _ => element!(noscript, a, kids),
             }
         }
     }
 }
 
+pub(crate) fn leak(s: &str) -> &'static str {
+    Box::leak(s.to_string().into_boxed_str())
+}
+
+/// a primitive of type `kind` parsed from its source text (the generator only emits valid texts)
+fn mk_prim(kind: i64, t: &str) -> AnyView {
+    use std::net::{IpAddr, Ipv4Addr, Ipv6Addr, SocketAddr};
+    use std::num::{NonZeroI64, NonZeroU8};
+    macro_rules! p {
+        ($t:ty) => {
+            t.parse::<$t>().unwrap_or_else(|_| panic!("harness: bad primitive {t:?}")).into_any()
+        };
+    }
+    match kind {
+        0 => p!(i64),
+        1 => p!(u8),
+        2 => p!(usize),
+        3 => p!(u128),
+        4 => p!(i128),
+        5 => p!(f64),
+        6 => p!(f32),
+        7 => p!(bool),
+        8 => t.chars().next().expect("harness: empty char").into_any(),
+        9 => p!(Ipv4Addr),
+        10 => p!(Ipv6Addr),
+        11 => p!(SocketAddr),
+        12 => p!(NonZeroU8),
+        13 => p!(NonZeroI64),
+        14 => p!(i8),
+        _ => p!(IpAddr),
+    }
+}
+fn perturb_prim(kind: i64, t: &str) -> String {
+    let (a, b) = match kind {
+        0 => ("-7", "12"),
+        1 => ("0", "255"),
+        2 => ("3", "4"),
+        3 => ("340282366920938463463374607431768211455", "1"),
+        4 => ("-1", "2"),
+        5 => ("1.5", "-0"),
+        6 => ("2.5", "inf"),
+        7 => ("true", "false"),
+        8 => ("x", "<"),
+        9 => ("127.0.0.1", "10.0.0.2"),
+        10 => ("::1", "fe80::1"),
+        11 => ("127.0.0.1:80", "[::1]:8080"),
+        12 => ("1", "255"),
+        13 => ("-5", "9"),
+        14 => ("-128", "127"),
+        _ => ("::1", "1.2.3.4"),
+    };
+    if t == a { b.to_string() } else { a.to_string() }
+}
+
+fn mk_of_n(n: i64, i: i64, x: AnyView) -> AnyView {
+    use either_of::{EitherOf16, EitherOf4, EitherOf8};
+    type A = AnyView;
+    match n {
+        4 => match i {
+            0 => EitherOf4::<A, A, A, A>::A(x),
+            1 => EitherOf4::B(x),
+            2 => EitherOf4::C(x),
+            _ => EitherOf4::D(x),
+        }
+        .into_any(),
+        8 => match i {
+            0 => EitherOf8::<A, A, A, A, A, A, A, A>::A(x),
+            1 => EitherOf8::B(x),
+            2 => EitherOf8::C(x),
+            3 => EitherOf8::D(x),
+            4 => EitherOf8::E(x),
+            5 => EitherOf8::F(x),
+            6 => EitherOf8::G(x),
+            _ => EitherOf8::H(x),
+        }
+        .into_any(),
+        _ => match i {
+            0 => EitherOf16::<A, A, A, A, A, A, A, A, A, A, A, A, A, A, A, A>::A(x),
+            1 => EitherOf16::B(x),
+            2 => EitherOf16::C(x),
+            3 => EitherOf16::D(x),
+            4 => EitherOf16::E(x),
+            5 => EitherOf16::F(x),
+            6 => EitherOf16::G(x),
+            7 => EitherOf16::H(x),
+            8 => EitherOf16::I(x),
+            9 => EitherOf16::J(x),
+            10 => EitherOf16::K(x),
+            11 => EitherOf16::L(x),
+            12 => EitherOf16::M(x),
+            13 => EitherOf16::N(x),
+            14 => EitherOf16::O(x),
+            _ => EitherOf16::P(x),
+        }
+        .into_any(),
+    }
+}
+
+/// the attributes a `Spread` adds: names that no generated element carries itself
+fn spread_attrs(attrs: &[(i64, String)]) -> Vec<AnyAttribute> {
+    use tachys::html::{attribute::accesskey, class::class, style::style};
+    attrs
+        .iter()
+        .map(|(k, v)| match k {
+            0 => custom_attribute("data-sp", v.clone()).into_any_attr(),
+            1 => class(("sp", !v.is_empty())).into_any_attr(),
+            2 => style(("height", v.clone())).into_any_attr(),
+            _ => accesskey(v.clone()).into_any_attr(),
+        })
+        .collect()
+}
+
+/// `add_any_attr` on the TYPED view (each view type has its own `AddAnyAttr`); everything else through
+/// `AnyView::add_any_attr` (`AnyViewWithAttrs`)
+fn spread(v: &V, attrs: &[(i64, String)]) -> AnyView {
+    let extra = spread_attrs(attrs);
+    match v {
+        V::Elem(t, a, ks) => {
+            let kids: Vec<AnyView> = ks.iter().map(mk).collect();
+            match t {
+                0 => element_spread!(div(), a, kids, extra),
+                1 => element_spread!(span(), a, kids, extra),
+                2 => element_spread!(p(), a, kids, extra),
+                3 => element_spread!(section(), a, kids, extra),
+                4 => element_spread!(ul(), a, kids, extra),
+                _ => mk(v).add_any_attr(extra).into_any(),
+            }
+        }
+        V::Tuple(vs) if vs.len() == 2 => (mk(&vs[0]), mk(&vs[1])).add_any_attr(extra).into_any(),
+        V::Tuple(vs) if vs.len() == 1 => (mk(&vs[0]),).add_any_attr(extra).into_any(),
+        V::Tuple(vs) if vs.len() == 3 => (mk(&vs[0]), mk(&vs[1]), mk(&vs[2])).add_any_attr(extra).into_any(),
+        V::Some(x) => Some(mk(x)).add_any_attr(extra).into_any(),
+        V::None => None::<AnyView>.add_any_attr(extra).into_any(),
+        V::Left(x) => Either::<AnyView, AnyView>::Left(mk(x)).add_any_attr(extra).into_any(),
+        V::Right(x) => Either::<AnyView, AnyView>::Right(mk(x)).add_any_attr(extra).into_any(),
+        V::Vec(vs) => vs.iter().map(mk).collect::<Vec<AnyView>>().add_any_attr(extra).into_any(),
+        V::StaticVec(vs) => tachys::view::iterators::StaticVec::from(vs.iter().map(mk).collect::<Vec<AnyView>>())
+            .add_any_attr(extra)
+            .into_any(),
+        V::Arr2(a, b) => [mk(a), mk(b)].add_any_attr(extra).into_any(),
+        V::Keyed(vs) => {
+            let items: Vec<(usize, V)> = vs.iter().cloned().enumerate().collect();
+            keyed(items, |it: &(usize, V)| it.0, |_i, it: (usize, V)| (|_: usize| {}, mk(&it.1)))
+                .add_any_attr(extra)
+                .into_any()
+        }
+        V::Eka(Some((a, b)), show_b) => tachys::view::either::EitherKeepAlive::<AnyView, AnyView> {
+            a: Some(mk(a)),
+            b: Some(mk(b)),
+            show_b: *show_b,
+        }
+        .add_any_attr(extra)
+        .into_any(),
+        V::Of3(i, x) => {
+            use either_of::EitherOf3;
+            match i {
+                0 => EitherOf3::<AnyView, AnyView, AnyView>::A(mk(x)),
+                1 => EitherOf3::B(mk(x)),
+                _ => EitherOf3::C(mk(x)),
+            }
+            .add_any_attr(extra)
+            .into_any()
+        }
+        V::Res(x) => match x {
+            Some(x) => Ok::<AnyView, Boom>(mk(x)),
+            None => Err(Boom),
+        }
+        .add_any_attr(extra)
+        .into_any(),
+        V::Owned(x) => tachys::reactive_graph::OwnedView::new(mk(x)).add_any_attr(extra).into_any(),
+        V::Suspend(_, 0, inner) => {
+            let inner = (**inner).clone();
+            Suspend::new(async move { mk(&inner) }).add_any_attr(extra).into_any()
+        }
+        V::Dyn(spec) if spec.kind != 0 => x::mk_dyn_spread(spec, extra),
+        V::Unit => ().add_any_attr(extra).into_any(),
+        _ => mk(v).add_any_attr(extra).into_any(),
+    }
+}
+
+/// one attribute of a `Rich` element: `(kind, repr, value)`, every representation the attribute
+/// kind has; kinds >= 10 are dynamic (closure / signal valued, case shape 4)
+fn rich_attr(kind: i64, repr: i64, val: &Option<String>) -> AnyAttribute {
+    use std::{borrow::Cow, sync::Arc};
+    use tachys::html::{
+        attribute::{dir, hidden},
+        class::class,
+        element::inner_html,
+        style::style,
+    };
+    let s = || val.clone().unwrap_or_default();
+    match kind {
+        0 => match repr {
+            0 => dir(leak(&s())).into_any_attr(),
+            1 => dir(s()).into_any_attr(),
+            2 => dir(Arc::<str>::from(s().as_str())).into_any_attr(),
+            _ => dir(val.clone()).into_any_attr(),
+        },
+        1 => match repr {
+            0 => class(leak(&s())).into_any_attr(),
+            1 => class(s()).into_any_attr(),
+            2 => class(Arc::<str>::from(s().as_str())).into_any_attr(),
+            3 => class(Cow::<'static, str>::Owned(s())).into_any_attr(),
+            _ => class(val.clone()).into_any_attr(),
+        },
+        2 => class((["on", "k2"][(repr % 2) as usize], val.is_some())).into_any_attr(),
+        3 => {
+            let name = ["width", "color"][(repr % 2) as usize];
+            match repr / 2 {
+                0 => style((name, leak(&s()))).into_any_attr(),
+                1 => style((name, s())).into_any_attr(),
+                _ => style((name, Arc::<str>::from(s().as_str()))).into_any_attr(),
+            }
+        }
+        4 => hidden(val.is_some()).into_any_attr(),
+        5 => match repr {
+            0 => style(leak(&s())).into_any_attr(),
+            1 => style(s()).into_any_attr(),
+            2 => style(Arc::<str>::from(s().as_str())).into_any_attr(),
+            _ => style(val.clone()).into_any_attr(),
+        },
+        6 => match repr {
+            0 => custom_attribute("data-k", s()).into_any_attr(),
+            1 => custom_attribute(String::from("data-k"), s()).into_any_attr(),
+            2 => custom_attribute(Cow::<'static, str>::Borrowed("data-k"), s()).into_any_attr(),
+            _ => custom_attribute(Arc::<str>::from("data-k"), s()).into_any_attr(),
+        },
+        7 => match repr {
+            0 => inner_html(s()).into_any_attr(),
+            1 => inner_html(leak(&s())).into_any_attr(),
+            2 => inner_html(Arc::<str>::from(s().as_str())).into_any_attr(),
+            _ => inner_html(val.clone()).into_any_attr(),
+        },
+        8 => match repr {
+            0 => Either::<_, tachys::html::attribute::custom::CustomAttr<&'static str, String>>::Left(dir(s())).into_any_attr(),
+            _ => Either::<tachys::html::attribute::Attr<tachys::html::attribute::Dir, String>, _>::Right(custom_attribute(
+                "data-e",
+                s(),
+            ))
+            .into_any_attr(),
+        },
+        _ => x::dyn_attr(kind, repr, s().parse::<usize>().unwrap_or(0)),
+    }
+}
+
 thread_local! {
+    /// build tuples of 5 / 6 / 8 / 12 parts and up to six `.child()` calls FLAT (kinds of the audit; the
+    /// model-compared kinds keep the nested form their observation was recorded with)
+    pub(crate) static FLAT: std::cell::Cell<bool> = const { std::cell::Cell::new(false) };
     /// whether `mk` leaves the futures of pending `Suspend`s unresolved (server side of a streamed case)
     static STREAMING: std::cell::Cell<bool> = const { std::cell::Cell::new(false) };
-    static SENDERS: std::cell::RefCell<Vec<(i64, futures::channel::oneshot::Sender<()>)>> = const { std::cell::RefCell::new(Vec::new()) };
+    pub(crate) static SENDERS: std::cell::RefCell<Vec<(i64, futures::channel::oneshot::Sender<()>)>> = const { std::cell::RefCell::new(Vec::new()) };
+    /// client side of case shape 4: the futures of local `Suspend`s are pending until a step completes them
+    pub(crate) static CLIENT_PENDING: std::cell::Cell<bool> = const { std::cell::Cell::new(false) };
 }
 
 /// same shape, every text and attribute value different
@@ -358,13 +755,37 @@ fn perturb(v: &V) -> V {
         V::Arr2(a, b) => V::Arr2(Box::new(perturb(a)), Box::new(perturb(b))),
         V::Str(k, t) => V::Str(*k, format!("{t}~")),
         V::Owned(x) => V::Owned(Box::new(perturb(x))),
+        V::Prim(k, t) => V::Prim(*k, perturb_prim(*k, t)),
+        V::ArrN(l) => V::ArrN(many(l)),
+        V::OfN(n, i, x) => V::OfN(*n, *i, Box::new(perturb(x))),
+        V::Spread(a, x) => V::Spread(
+            a.iter().map(|(k, s)| (*k, if *k == 1 { if s.is_empty() { "1".to_string() } else { String::new() } } else { format!("{s}~") })).collect(),
+            Box::new(perturb(x)),
+        ),
+        V::Rich(t, a, ks) => V::Rich(
+            *t,
+            a.iter()
+                .map(|(k, r, v)| match k {
+                    // toggles flip; optional values keep being present / absent; everything else changes
+                    2 | 4 => (*k, *r, if v.is_some() { None } else { Some("1".to_string()) }),
+                    k if *k >= 10 => (*k, *r, v.clone()),
+                    _ => (*k, *r, v.as_ref().map(|s| format!("{s}~"))),
+                })
+                .collect(),
+            many(ks),
+        ),
+        V::Dyn(spec) => V::Dyn(spec.clone()),
     }
 }
 
 // ------------------------------------------------------------------ HTML parser of the harness
 const VOID: &[&str] = &["br", "hr", "img", "input"];
-const BLOCK: &[&str] = &["div", "section", "ul", "main"];
-const RAWTEXT: &[&str] = &["textarea", "style", "script"];
+const BLOCK: &[&str] = &["div", "section", "ul", "main", "ol", "h1", "li", "button"];
+/// of these, the ones whose start tag closes an open `<p>` (`<button>` does not)
+const P_CLOSERS: &[&str] = &["div", "section", "ul", "main", "ol", "h1", "li"];
+/// ordinary (not "special") elements: their end tag walks up the stack past other ordinary elements
+const ORDINARY: &[&str] = &["span", "a", "em", "label", "x-y", "svg", "g"];
+const RAWTEXT: &[&str] = &["textarea", "style", "script", "noscript"];
 
 fn decode_refs(s: &str) -> String {
     let mut out = String::new();
@@ -454,8 +875,8 @@ pub fn parse_into(root: &Element, html: &str) {
                 }
             } else if BLOCK.contains(&name.as_str()) {
                 close_through(&mut stack, &name);
-            } else if name == "span" {
-                // walk up; a block-level ("special") element stops the search
+            } else if ORDINARY.contains(&name.as_str()) {
+                // "any other end tag": walk up; a "special" element (blocks, p, template) stops the search
                 let mut i = stack.len();
                 while i > 1 {
                     i -= 1;
@@ -463,7 +884,7 @@ pub fn parse_into(root: &Element, html: &str) {
                         stack.truncate(i);
                         break;
                     }
-                    if stack[i].0 != "span" {
+                    if !ORDINARY.contains(&stack[i].0.as_str()) {
                         break;
                     }
                 }
@@ -482,7 +903,7 @@ pub fn parse_into(root: &Element, html: &str) {
             None => (inside, ""),
         };
         let name = name.to_ascii_lowercase();
-        if !(VOID.contains(&name.as_str()) || BLOCK.contains(&name.as_str()) || name == "p" || name == "span"
+        if !(VOID.contains(&name.as_str()) || BLOCK.contains(&name.as_str()) || name == "p" || ORDINARY.contains(&name.as_str())
             || name == "template" || RAWTEXT.contains(&name.as_str()))
         {
             panic!("parser: unsupported tag {name:?}");
@@ -493,8 +914,17 @@ pub fn parse_into(root: &Element, html: &str) {
             if rest.is_empty() {
                 break;
             }
-            let eq = rest.find('=').expect("parser: attribute without value");
-            let key = rest[..eq].to_ascii_lowercase();
+            // attribute name: up to whitespace, `=` or the end; without `=` the value is empty
+            let nend = rest.find(|c: char| c == '=' || c == ' ' || c == '\t' || c == '\n' || c == '\x0c').unwrap_or(rest.len());
+            let key = rest[..nend].to_ascii_lowercase();
+            if !rest[nend..].starts_with('=') {
+                if !attrs.iter().any(|a| a.0 == key) {
+                    attrs.push((key, String::new()));
+                }
+                rest = &rest[nend..];
+                continue;
+            }
+            let eq = nend;
             assert!(rest[eq + 1..].starts_with('"'), "parser: unquoted attribute value");
             let vend = rest[eq + 2..].find('"').expect("parser: unterminated attribute value") + eq + 2;
             let val = decode_refs(&rest[eq + 2..vend]);
@@ -503,7 +933,7 @@ pub fn parse_into(root: &Element, html: &str) {
             }
             rest = &rest[vend + 1..];
         }
-        if (BLOCK.contains(&name.as_str()) || name == "p" || name == "hr") && stack.iter().any(|e| e.0 == "p") {
+        if (P_CLOSERS.contains(&name.as_str()) || name == "p" || name == "hr") && stack.iter().any(|e| e.0 == "p") {
             close_through(&mut stack, "p");
         }
         let top = stack.last().unwrap().1.clone();
@@ -564,8 +994,7 @@ fn visible(n: &Node) -> Option<Sexp> {
         Kind::Text => Some(Lst(vec![Num(0), Sexp::from_str(&n.data())])),
         Kind::Comment => None,
         _ => {
-            let mut a = n.attributes();
-            a.sort();
+            let a = canon_attrs(n);
             Some(Lst(vec![
                 Num(2),
                 Sexp::from_str(&n.tag().unwrap_or_default()),
@@ -574,6 +1003,49 @@ fn visible(n: &Node) -> Option<Sexp> {
             ]))
         }
     }
+}
+
+/// attributes sorted by name; `class` as its token list (dropped when empty); the `style` attribute and
+/// the properties set through the CSSOM (which the native DOM keeps apart) as ONE sorted declaration list
+fn canon_attrs(n: &Node) -> Vec<(String, String)> {
+    fn put(l: &mut Vec<(String, String)>, k: String, v: String) {
+        match l.iter_mut().find(|e| e.0 == k) {
+            Some(e) => e.1 = v,
+            None => l.push((k, v)),
+        }
+    }
+    let mut out = vec![];
+    let mut decls: Vec<(String, String)> = vec![];
+    for (k, v) in n.attributes() {
+        if k == "class" {
+            let toks = v.split_ascii_whitespace().collect::<Vec<_>>().join(" ");
+            if !toks.is_empty() {
+                out.push((k, toks));
+            }
+        } else if k == "style" {
+            for d in v.split(';') {
+                let d = d.trim();
+                if d.is_empty() {
+                    continue;
+                }
+                match d.split_once(':') {
+                    Some((a, b)) => put(&mut decls, a.trim().to_string(), b.trim().to_string()),
+                    None => put(&mut decls, d.to_string(), String::new()),
+                }
+            }
+        } else {
+            out.push((k, v));
+        }
+    }
+    for (k, v) in n.styles() {
+        put(&mut decls, k, v.trim().to_string());
+    }
+    decls.sort();
+    if !decls.is_empty() {
+        out.push((":style".to_string(), decls.iter().map(|(k, v)| format!("{k}:{v};")).collect()));
+    }
+    out.sort();
+    out
 }
 
 fn preorder(n: &Node, out: &mut Vec<Node>) {
@@ -601,43 +1073,28 @@ fn collect_sync(mut b: tachys::ssr::StreamBuilder) -> Option<String> {
     Some(out)
 }
 
-/// `Suspend::rebuild` and a pending `Suspend::build` spawn a task; this property drives no executor:
-/// the tasks are parked (never polled) and dropped with the case.
-mod parked {
-    use any_spawner::{CustomExecutor, Executor, PinnedFuture, PinnedLocalFuture};
-    use std::cell::RefCell;
-    thread_local! {
-        static LOCAL: RefCell<Vec<PinnedLocalFuture<()>>> = const { RefCell::new(Vec::new()) };
-        static SENDABLE: RefCell<Vec<PinnedFuture<()>>> = const { RefCell::new(Vec::new()) };
-    }
-    struct Park;
-    impl CustomExecutor for Park {
-        fn spawn(&self, fut: PinnedFuture<()>) {
-            SENDABLE.with(|t| t.borrow_mut().push(fut));
-        }
-        fn spawn_local(&self, fut: PinnedLocalFuture<()>) {
-            LOCAL.with(|t| t.borrow_mut().push(fut));
-        }
-        fn poll_local(&self) {}
-    }
-    pub fn init() {
-        let _ = Executor::init_local_custom_executor(Park);
-    }
-    pub fn clear() {
-        let a = LOCAL.with(|t| std::mem::take(&mut *t.borrow_mut()));
-        let b = SENDABLE.with(|t| std::mem::take(&mut *t.borrow_mut()));
-        drop(a);
-        drop(b);
-    }
-}
+/// `Suspend::rebuild`, a pending `Suspend::build` and every `RenderEffect` spawn a task. A process has ONE
+/// executor: the harness-owned one of c04.rs with its exposed run queue. Case shapes 0-3 never poll it (the
+/// tasks stay parked and are dropped with the case), shapes 4 and 5 run it until idle.
+use crate::c04::exec;
+
+#[path = "c05x.rs"]
+pub mod x;
 
 pub fn run(c: &Sexp) -> Sexp {
-    parked::init();
+    exec::init();
+    exec::reset();
+    FLAT.with(|f| f.set(false));
+    SENDERS.with(|s| s.borrow_mut().clear());
+    STREAMING.with(|s| s.set(false));
+    CLIENT_PENDING.with(|s| s.set(false));
     let owner = reactive_graph::owner::Owner::new();
     owner.set();
     let out = run_case(c);
     owner.cleanup();
-    parked::clear();
+    drop(owner);
+    exec::reset();
+    SENDERS.with(|s| s.borrow_mut().clear());
     out
 }
 
@@ -663,6 +1120,15 @@ fn run_case(c: &Sexp) -> Sexp {
     if c.at(0).num() == 3 {
         return run_resolved(c);
     }
+    if c.at(0).num() == 4 {
+        return x::run_reactive(c);
+    }
+    // shape 6 `(6 v v2 skip entry)`: the wide grammar of the audit (flat tuples), hydrated through the public
+    // entry points: entry 0 `hydrate_from(root)`, 1 `hydrate_from_position(el, Position::Current)` on the
+    // element the (element-rooted) view was rendered to
+    let wide = c.at(0).num() == 6;
+    FLAT.with(|f| f.set(wide));
+    let entry = if wide { c.at(4).num() } else { 0 };
     let v1 = dec_view(c.at(1));
     let v2 = dec_view(c.at(2));
     let html = mk(&v1).to_html();
@@ -673,7 +1139,14 @@ fn run_case(c: &Sexp) -> Sexp {
     let before = shape(&root);
     let m0 = ndom::mutations();
     let hyd = catch_unwind(AssertUnwindSafe(|| {
-        mk(&v1).hydrate::<true>(&Cursor::new(root.clone()), &PositionState::default())
+        if !wide {
+            mk(&v1).hydrate::<true>(&Cursor::new(root.clone()), &PositionState::default())
+        } else if entry == 1 {
+            let el = root.children().into_iter().find(|k| k.is_element()).expect("harness: entry 1 needs an element-rooted view");
+            mk(&v1).hydrate_from_position::<true>(&Element(el), Position::Current)
+        } else {
+            mk(&v1).hydrate_from::<true>(&root)
+        }
     }));
     let nops = ndom::mutations() - m0;
     let mut st = match hyd {
@@ -687,6 +1160,9 @@ fn run_case(c: &Sexp) -> Sexp {
     let mut st2 = mk(&v1).build();
     st2.mount(&root2, None);
     let csr_eq = visible(&root) == visible(&root2);
+    if std::env::var("C05_DEBUG").is_ok() {
+        eprintln!("hydrated: {}\nbuilt:    {}", root.serialize(), root2.serialize());
+    }
 
     // rebuild with every text / attribute value changed
     let mut nodes = vec![];
@@ -725,6 +1201,9 @@ fn run_case(c: &Sexp) -> Sexp {
         true
     } else {
         let ok = catch_unwind(AssertUnwindSafe(|| mk(&v2).rebuild(&mut st))).is_ok();
+        if std::env::var("C05_DEBUG").is_ok() {
+            eprintln!("after rebuild(v2)\nhydrated: {}\nbuilt:    {}", root.serialize(), root2.serialize());
+        }
         ok && visible(&root) == visible(&root2)
     };
     let mut out = vec![
@@ -910,14 +1389,11 @@ fn run_resolved(c: &Sexp) -> Sexp {
     hydrate_markup(&html, &v)
 }
 
-/// parse the markup a server form produced (running the out-of-order scripts), hydrate the view with
-/// its futures resolved against it and compare with the client-built twin
-fn hydrate_markup(html: &str, v: &V) -> Sexp {
-    let html = html.to_string();
-    let v = v.clone();
+/// what the browser has built when the whole response has arrived: the markup parsed, the inline scripts
+/// of the out-of-order chunks run in document order, the trailing templates / scripts dropped
+pub(crate) fn parse_server_markup(html: &str) -> Element {
     let root = Dom::create_element("div", None);
-    parse_into(&root, &html);
-    // run the scripts of the out-of-order chunks, in document order
+    parse_into(&root, html);
     let mut scripts = vec![];
     elements_named(&root, "script", &mut scripts);
     for sc in scripts {
@@ -926,13 +1402,21 @@ fn hydrate_markup(html: &str, v: &V) -> Sexp {
             apply_ooo_script(&root, &text);
         }
     }
-    // the templates and scripts of the chunks trail the application's markup: drop them
     let kids = root.children();
     if let Some(i) = kids.iter().position(|k| k.tag().as_deref() == Some("template")) {
         for k in &kids[i..] {
             Dom::remove(k);
         }
     }
+    root
+}
+
+/// parse the markup a server form produced (running the out-of-order scripts), hydrate the view with
+/// its futures resolved against it and compare with the client-built twin
+fn hydrate_markup(html: &str, v: &V) -> Sexp {
+    let html = html.to_string();
+    let v = v.clone();
+    let root = parse_server_markup(&html);
     let tree_s = Lst(root.children().iter().map(tree).collect());
     let before = shape(&root);
     let m0 = ndom::mutations();
